@@ -193,16 +193,26 @@ def run_case(case: dict) -> dict:
         lnodes[n] = ln
 
     noise_ids = [0x123, 0x3FF, 0x77F, 0x10000, 0x600 + 120, 0x580 + 121]
+    # 29-bit identifiers of another protocol whose low 11 bits equal an SDO COB-ID in use
+    collide = [0x1ABCD600 + n for n in nodes] + [0x18FF0580 + n for n in nodes]
+    u32 = var_idx(0x7)
 
     def noise_once(r):
-        cid = r.choice(noise_ids)
-        d = bytes(r.randrange(256) for _ in range(r.randrange(0, 9)))
+        if r.random() < 0.4:
+            cid = r.choice(collide)
+            if cid & 0x780 == 0x600:      # would parse as an expedited download of 0xDEADBEEF
+                d = bytes([0x23, u32 & 0xFF, u32 >> 8, 0, 0xEF, 0xBE, 0xAD, 0xDE])
+            else:                          # would parse as an expedited upload response
+                d = bytes([0x43, u32 & 0xFF, u32 >> 8, 0, 0xEF, 0xBE, 0xAD, 0xDE])
+        else:
+            cid = r.choice(noise_ids)
+            d = bytes(r.randrange(256) for _ in range(r.randrange(0, 9)))
         rec.add({"e": "noise", "id": cid, "d": B(d)})
         for net in (net1, net2):
             try:
                 net.notify(cid, bytearray(d), 0.0)
-            except Exception as exc:  # noqa
-                machinery.append(f"noise: {exc!r}")
+            except Exception as exc:  # noqa: unrelated traffic must not raise into the receive path
+                rec.add({"e": "noise_raise", "id": cid, "repr": repr(exc)[:120]})
 
     if case.get("noise") and mode != "inline":
         nrng = random.Random(rng.randrange(1 << 30))
